@@ -248,7 +248,10 @@ def run_history(w, raw, steps):
     """several decrypt calls on ONE parsed message object; steps: list of recipient tuples; returns the outcomes"""
     with warnings.catch_warnings():
         warnings.simplefilter('ignore')
-        em = w.pgpy.PGPMessage.from_blob(raw)
+        try:
+            em = w.pgpy.PGPMessage.from_blob(raw)
+        except Exception as ex:
+            return [('raise', type(ex).__name__, 'parse') for _ in steps]
     return [w.impl_decrypt_obj(em, r) for r in steps]
 
 
